@@ -26,6 +26,8 @@ chaos_fn!(chaos_c10, "C10", |s| s.sends >= 20);
 chaos_fn!(chaos_c11, "C11", |s| s.timers >= 10);
 chaos_fn!(chaos_c12, "C12", |s| s.timers >= 10);
 chaos_fn!(chaos_c13, "C13", |s| s.timers >= 10);
+chaos_fn!(chaos_c15, "C15", |s| s.sends >= 20);
+chaos_fn!(chaos_c16, "C16", |s| s.sends >= 20);
 chaos_fn!(chaos_c19, "C19", |s| s.own_addr_records > 0);
 
 macro_rules! driver_fn {
@@ -48,6 +50,8 @@ driver_fn!(driver_c10, "C10", |s| s.self_updates > 0);
 driver_fn!(driver_c11, "C11", |s| s.timers >= 10);
 driver_fn!(driver_c12, "C12", |s| s.timers >= 10);
 driver_fn!(driver_c13, "C13", |s| s.timers >= 10);
+driver_fn!(driver_c15, "C15", |s| s.sends >= 20);
+driver_fn!(driver_c16, "C16", |s| s.sends >= 20);
 driver_fn!(driver_c19, "C19", |s| s.own_addr_records > 0);
 
 const ASSUME: &[&str] = &[
@@ -149,6 +153,34 @@ pub fn c13() -> Check {
         workloads: vec![
             Workload { name: "chaos", f: chaos_c13, quick: 20_000, thorough: 1_000_000, flav: Flav::Checked },
             Workload { name: "driver", f: driver_c13, quick: 30_000, thorough: 1_500_000, flav: Flav::Checked },
+        ],
+        exhaustive: false,
+    }
+}
+pub fn c15() -> Check {
+    Check {
+        id: "C15",
+        level: "exploration",
+        rule: "lock-step replay of every call through the C01 join model decides which updates are accepted for broadcast; every piggybacking datagram is accounted against the shadow backlog (byte-identical entry, transmissions left, one per address, nothing that fits omitted, precedence), non-piggybacking kinds must consume nothing, and the shadow is compared with updates_backlog() and the hook snapshot after every call. Non-trivial: >= 20 datagrams.",
+        assumptions: ASSUME,
+        required: &["updates_piggybacked", "updates_accepted_for_broadcast", "piggybacking_datagrams_accounted"],
+        workloads: vec![
+            Workload { name: "chaos", f: chaos_c15, quick: 20_000, thorough: 1_000_000, flav: Flav::Checked },
+            Workload { name: "driver", f: driver_c15, quick: 30_000, thorough: 1_500_000, flav: Flav::Checked },
+        ],
+        exhaustive: false,
+    }
+}
+pub fn c16() -> Check {
+    Check {
+        id: "C16",
+        level: "exploration",
+        rule: "instrumented BroadcastHandler (unique item tags, three invalidation relations, random recipient predicates); shadow backlog of accepted items; every datagram tail accounted; receiver-side handler log compared with the items sent; broadcast() op-level rules. Non-trivial: >= 20 datagrams.",
+        assumptions: ASSUME,
+        required: &["custom_items_sent", "custom_items_received", "broadcast_calls"],
+        workloads: vec![
+            Workload { name: "chaos", f: chaos_c16, quick: 20_000, thorough: 1_000_000, flav: Flav::Both },
+            Workload { name: "driver", f: driver_c16, quick: 30_000, thorough: 1_500_000, flav: Flav::Both },
         ],
         exhaustive: false,
     }
